@@ -66,6 +66,9 @@ func main() {
 	switch os.Args[1] {
 	case "worker":
 		mc.WorkerMain()
+	case "racepass":
+		n, _ := strconv.Atoi(os.Args[2])
+		os.Exit(props.RacePassMain(n))
 	case "shard":
 		sh, _ := strconv.Atoi(os.Args[4])
 		n, _ := strconv.Atoi(os.Args[5])
